@@ -17,24 +17,44 @@ Definition feqb_exact (x y : float) : bool :=
 Definition feqb_num (x y : float) : bool :=
   PrimFloat.eqb x y || (PrimFloat.is_nan x && PrimFloat.is_nan y).
 
-(* Go's float64(int) / float64(int64) for |z| < 2^63: round to nearest even *)
+(* Go's float64(int) / float64(int64) for every int64 value -2^63 <= z < 2^63: round to nearest even.
+   (Coq's primitive integers have 63 bits: 2^63 itself does not fit, so math.MinInt64 = -2^63 is a case
+   of its own; outside the int64 range the function is not meaningful - the conversion of z >= 2^63
+   goes through Uint63.of_Z, i.e. modulo 2^63.) *)
 Definition f_of_Z (z : Z) : float :=
   match z with
   | Z0 => PrimFloat.zero
   | Zpos _ => PrimFloat.of_uint63 (Uint63.of_Z z)
-  | Zneg p => PrimFloat.opp (PrimFloat.of_uint63 (Uint63.of_Z (Zpos p)))
+  | Zneg p => if Pos.eqb p 9223372036854775808 then (-0x1p+63)%float
+              else PrimFloat.opp (PrimFloat.of_uint63 (Uint63.of_Z (Zpos p)))
   end.
 
-(* Go's int(x) for a finite float with |x| < 2^62: truncation toward zero *)
+(* Go's int(x) / int64(x) for a float64 x, for EVERY x, AS COMPILED FOR amd64.
+   PLATFORM ASSUMPTION "amd64-cvttsd2sq" (part of the trusted base; cite it by this name): the Go
+   specification says that converting a floating-point value to an integer type discards the
+   fraction and that "if the value cannot be represented by the type the result is
+   implementation-dependent" (no panic).  On amd64 the compiler emits CVTTSD2SQ, which truncates
+   toward zero when the truncated value lies in [-2^63, 2^63) and otherwise - for NaN, +Inf, -Inf and
+   every finite value outside that interval - returns the "integer indefinite" value
+   0x8000000000000000 = -2^63 = math.MinInt64.  That behaviour is what is modelled here (checked on the
+   real toolchain, go1.23.5/amd64: int(NaN) = int(+Inf) = int(-Inf) = int(1e300) = int(-1e300) =
+   int(9.3e18) = int(2^63) = -9223372036854775808; int(-2^63) = -2^63 is the in-range value).
+   Other ports differ (arm64 FCVTZS saturates and maps NaN to 0): every statement that depends on an
+   out-of-range conversion is a statement about amd64 only. *)
+Definition int64_indefinite : Z := -9223372036854775808.       (* -2^63 = math.MinInt64 *)
 Definition f_trunc_Z (x : float) : Z :=
   match Prim2SF x with
+  | S754_zero _ => 0
   | S754_finite s m e =>
     let v := if Z.leb 0 e then Z.shiftl (Zpos m) e else Z.shiftr (Zpos m) (- e) in
-    if s then - v else v
-  | _ => 0
+    let r := if s then - v else v in
+    if Z.leb int64_indefinite r && Z.ltb r 9223372036854775808 then r else int64_indefinite
+  | S754_infinity _ => int64_indefinite
+  | S754_nan => int64_indefinite
   end.
 
-(* math.Floor as an integer, same domain *)
+(* math.Floor as an integer, for a finite x with |x| < 2^52 only (the one caller, [ffloor] of
+   model/Population.v, guards with exactly that; no conversion is involved, the value is exact) *)
 Definition f_floor_Z (x : float) : Z :=
   match Prim2SF x with
   | S754_finite s m e =>
